@@ -91,8 +91,37 @@ TrWriteModel ==
   /\ LET s == st[Ev1.sid] IN
      IF Ev1.ok
      THEN /\ st' = Upd(Ev1.sid, [s EXCEPT !.models = Append(s.models, Ev1.mid), !.mdefs = Append(s.mdefs, Ev1.model)])
-          /\ Judge(IF \A i \in DOMAIN s.models : s.models[i] < Ev1.mid THEN "OK_MODEL" ELSE "BAD_MODEL_ID_NOT_INCREASING", "")
+          /\ Judge(IF ~ValidModelBasic(Ev1.model) THEN "BAD_MODEL_ACCEPTED_INVALID"
+                   ELSE IF \A i \in DOMAIN s.models : s.models[i] < Ev1.mid THEN "OK_MODEL" ELSE "BAD_MODEL_ID_NOT_INCREASING", "")
      ELSE UNCHANGED st /\ Judge("OK_MODEL_REJECT", "")
+
+\* ReadAuthorizationModel returns the model unchanged (C17): compared up to the order
+\* of types, relations, restrictions and condition parameters
+NormModel(m) ==
+  [types |-> SeqToSet(m.types),
+   rels  |-> {[t |-> e.t, r |-> e.r, rw |-> e.rw, restr |-> SeqToSet(e.restr)] : e \in SeqToSet(m.rels)},
+   conds |-> {[name |-> c.name, params |-> SeqToSet(c.params), cel |-> c.cel] : c \in SeqToSet(m.conds)}]
+TrReadModel ==
+  /\ IsEvent("ReadModel")
+  /\ LET s == st[Ev1.sid]
+         idx == {i \in DOMAIN s.models : s.models[i] = Ev1.mid}
+     IN Judge(IF ~Ev1.found THEN (IF idx = {} THEN "OK_GONE" ELSE "BAD_MODEL_LOST")
+              ELSE IF idx = {} THEN "BAD_MODEL_UNKNOWN"
+              ELSE IF NormModel(Ev1.model) = NormModel(s.mdefs[CHOOSE i \in idx : TRUE]) THEN "OK_MODEL" ELSE "BAD_MODEL_CHANGED", "")
+  /\ UNCHANGED st
+
+\* A request without model id is evaluated with the latest model of the store (C17):
+\* the resolved id is the newest one and the answer is the reference value under it.
+TupleSetOf(T) == {[o |-> k.o, r |-> k.r, u |-> k.u, c |-> T[k].c, cctx |-> T[k].cctx] : k \in DOMAIN T}
+TrModelessCheck ==
+  /\ IsEvent("ModelessCheck")
+  /\ LET s == st[Ev1.sid]
+         ref == Holds(LatestModel(Ev1.sid), TupleSetOf(s.T), Ev1.ctx, Ev1.o, Ev1.r, Ev1.u)
+     IN Judge(IF Len(s.models) = 0 THEN "BAD_EVENT"
+              ELSE IF Ev1.mid # s.models[Len(s.models)] THEN "BAD_NOT_LATEST_MODEL"
+              ELSE IF (Ev1.got = "T" /\ ref = "T") \/ (Ev1.got = "F" /\ ref = "F") THEN "OK_CHECK"
+              ELSE "BAD_MODELESS_ANSWER", ref)
+  /\ UNCHANGED st
 
 \* ReadAuthorizationModels walk: newest first, every model exactly once (C14, C17)
 TrReadModels ==
@@ -196,7 +225,12 @@ TrWalk ==
 \* a tampered or foreign continuation token must be rejected, never misread (C14)
 TrToken ==
   /\ IsEvent("Token")
-  /\ Judge(IF Ev1.accepted THEN "BAD_TOKEN_ACCEPTED" ELSE "OK_TOKEN", Ev1.kind)
+  /\ Judge(IF ~Ev1.accepted THEN "OK_TOKEN"
+           \* the SQL backends use the bare id as ListStores / ReadAuthorizationModels position:
+           \* any decodable string is taken as a position (known finding KF-7)
+           ELSE IF Ev1.backend = "sqlite" /\ Ev1.malformed /\ Ev1.api \in {"ListStores", "ReadAuthorizationModels"}
+                THEN "KF_SqlBareIdTokenMisread"
+           ELSE "BAD_TOKEN_ACCEPTED", Ev1.kind)
   /\ UNCHANGED st
 
 ---------------------------------------------------------------------------
@@ -224,6 +258,7 @@ TrEnd ==
   /\ UNCHANGED <<st, bad, counts, judged>>
 
 Next == \/ TrReset \/ TrCreateStore \/ TrDeleteStore \/ TrListStores \/ TrGetStore \/ TrWriteModel \/ TrReadModels
+        \/ TrReadModel \/ TrModelessCheck
         \/ TrUsedModel \/ TrWrite \/ TrDump \/ TrWalk \/ TrToken \/ TrWriteAssertions \/ TrReadAssertions \/ TrEnd
 
 Spec == Init /\ [][Next]_vars
